@@ -3,6 +3,7 @@
   Statements only; proofs in Proofs/C09*.lean.  Model: `MongoModel.expire` and `stepColl`.
 -/
 import Proofs.C09
+import Proofs.C09ExtStep
 
 namespace MongoModel.Props.C09
 open MongoModel MongoModel.Spec
@@ -73,5 +74,77 @@ theorem drop_stops_expiry (now : Int) (c : Coll) :
     (∀ name c', dropIndexColl now c name = (c', .ok ()) →
         ∀ ix ∈ c'.ttlIndexes, ix.name ≠ name) :=
   Proofs.C09.drop_stops_expiry now c
+
+/-! ## Extension: the operations of the extended step `stepX` (FindModify.lean)
+
+find_one with sort / projection, find_one_and_update / _replace / _delete, bulk_write and the
+bulk builders: every component begins with the expiry pass, so the whole operation is blind to
+expired documents. -/
+
+/-- **Visibility, extended step**: every data operation of `stepX` has the same outcome, and
+    leaves the same collection as far as any later operation at that clock can tell, whether it is
+    issued on the collection as stored or on the collection without its expired documents. -/
+theorem stepX_expired_invisible (cfg : Cfg) (now : Int) (c c' : Coll) (op : Val)
+    (h : expire now c = .ok c') (hop : dataOpX op = true) :
+    (stepX cfg now c op).2 = (stepX cfg now c' op).2 ∧
+    expire now (stepX cfg now c op).1 = expire now (stepX cfg now c' op).1 :=
+  Proofs.C09Ext.stepX_expired_invisible cfg now c c' op h hop
+
+/-- … stated on `find_one` itself (any filter, projection and sort): C14 is stated on it -/
+theorem find_one_expired_invisible (now : Int) (c c' : Coll) (f proj : Val)
+    (sort : Option SortSpec) (h : expire now c = .ok c') :
+    (findOneColl now c f proj sort).2 = (findOneColl now c' f proj sort).2 ∧
+    expire now (findOneColl now c f proj sort).1 = expire now (findOneColl now c' f proj sort).1 :=
+  Proofs.C09Ext.find_one_expired_invisible now c c' f proj sort h
+
+/-- … on `_find_and_modify` itself: an expired document is never the target of a
+    find_one_and_*, never returned, never updated, replaced or deleted by it, and never stands in
+    the way of its upsert -/
+theorem fam_expired_invisible (cfg : Cfg) (now : Int) (c c' : Coll) (q proj : Val)
+    (upd : Option Val) (upsert : Bool) (sort : Option SortSpec) (after : Bool)
+    (h : expire now c = .ok c') :
+    (findAndModify cfg now c q proj upd upsert sort after).2 =
+      (findAndModify cfg now c' q proj upd upsert sort after).2 ∧
+    expire now (findAndModify cfg now c q proj upd upsert sort after).1 =
+      expire now (findAndModify cfg now c' q proj upd upsert sort after).1 :=
+  Proofs.C09Ext.fam_expired_invisible cfg now c c' q proj upd upsert sort after h
+
+/-- … and on `bulk_write` itself (ordered or not, any requests): same result or same
+    BulkWriteError details, same collection up to the pass -/
+theorem bulk_expired_invisible (cfg : Cfg) (now : Int) (c c' : Coll) (reqs : List Val)
+    (ordered : Bool) (h : expire now c = .ok c') :
+    (bulkWrite cfg now c reqs ordered).2 = (bulkWrite cfg now c' reqs ordered).2 ∧
+    expire now (bulkWrite cfg now c reqs ordered).1 =
+      expire now (bulkWrite cfg now c' reqs ordered).1 :=
+  Proofs.C09Ext.bulk_expired_invisible cfg now c c' reqs ordered h
+
+/-- non-vacuity: document 1 expired 95 s ago and is still stored; it sorts first and shares its
+    `_id` with the bulk's insert.  The sorted find_one_and_update acts on document 2, the bulk
+    inserts a new document 1 — exactly as on the collection without the expired document. -/
+example :
+    let now : Int := 1600000100000000
+    let ix : Index := { name := "t_1", keys := [("t", .int 1)], ttl := some (.int 5) }
+    let c : Coll := {
+      docs := [(.int 1, .doc [("_id", .int 1), ("t", .date 1600000000000000 none), ("s", .int 1)]),
+               (.int 2, .doc [("_id", .int 2), ("t", .date 1600000099000000 none), ("s", .int 2)])],
+      indexes := [ix], ttlIndexes := [ix] }
+    let fam : Val := .arr [.str "find_one_and_update", .doc [], .doc [("$set", .doc [("hit", .int 1)])],
+                           .doc [("_id", .int 1)], .arr [.arr [.str "s", .int 1]], .bool false, .bool true]
+    let bulk : Val := .arr [.str "bulk_write", .arr [
+      .arr [.str "InsertOne", .doc [("_id", .int 1), ("s", .int 0)]],
+      .arr [.str "UpdateMany", .doc [], .doc [("$set", .doc [("seen", .int 1)])], .bool false],
+      .arr [.str "DeleteOne", .doc [("s", .int 2)]]], .bool true]
+    (match expire now c with
+     | .ok c' =>
+       c'.docs.length == 1 && dataOpX fam && dataOpX bulk &&
+       (match stepX {} now c fam, stepX {} now c' fam with
+        | (a, .val v), (b, .val w) =>
+          v == .doc [("_id", .int 2)] && w == v && a.docs.length == 1 && b.docs.length == 1
+        | _, _ => false) &&
+       (match stepX {} now c bulk, stepX {} now c' bulk with
+        | (a, .val v), (b, .val w) =>
+          v == w && a.docs.map (·.1) == [.int 1] && b.docs.map (·.1) == [.int 1]
+        | _, _ => false)
+     | .error _ => false) = true := by decide +kernel
 
 end MongoModel.Props.C09
